@@ -8,7 +8,7 @@ import sys
 sys.path.insert(0, os.path.dirname(os.path.abspath(__file__)))
 import astlib
 
-OUT = '/verif/coq/generated/ArityTable.v'
+OUT = os.path.join(os.environ.get('VERIF_ROOT') or os.path.dirname(os.path.dirname(os.path.abspath(__file__))), 'coq', 'generated', 'ArityTable.v')
 
 
 def first(o, pred):
